@@ -41,7 +41,7 @@ FULL = [b"{", b"}", b"[", b"]", b":", b",", b'"', b"\\", b"/", b" ", b"\n", b"0"
         b"\xf0\x9f\x98\x80",    # U+1F600
         b"\xed\xa0\x80",        # U+D800 encoded: a surrogate, not UTF-8
         b"\xf4\x90\x80\x80",    # 0x110000: beyond U+10FFFF
-        b"\xc0\x80",            # overlong NUL
+        b"\xc1\xbf",            # overlong form of U+007F (an overlong form whose value would be an allowed character)
         b"\x80",                # lone continuation byte
         b"\xc3",                # lone lead byte
         b"\xff"]
@@ -50,7 +50,9 @@ FULL = [b"{", b"}", b"[", b"]", b":", b",", b'"', b"\\", b"/", b" ", b"\n", b"0"
 # n/l (escape letter, literal null), control character, valid multi-byte, invalid UTF-8)
 REDUCED = [b"{", b"}", b"[", b"]", b":", b",", b'"', b"\\", b"/", b" ", b"0", b"1", b"-", b"+", b".", b"e", b"u", b"n", b"l",
            b"\x1f", b"\xc3\xa9", b"\x80"]
-ALPHABETS = {"full": FULL, "reduced": REDUCED}
+# reduced + what is needed to spell false / true and one more representative of several classes
+MID = REDUCED + [b"\n", b"E", b"a", b"f", b"s", b"t", b"r", b"\xf0\x9f\x98\x80", b"\xed\xa0\x80", b"\xc1\xbf"]
+ALPHABETS = {"full": FULL, "reduced": REDUCED, "mid": MID}
 # bytes used for the single-byte mutations of generated documents
 MUT = sorted(set(b'{}[]:,"\\/ \t\n\r0159-+.eEabfnrtulsxAF') | {0x00, 0x1F, 0x7F, 0x80, 0xBF, 0xC0, 0xC3, 0xE2, 0xED, 0xF0, 0xF4, 0xFF})
 
@@ -517,13 +519,13 @@ def plan(tier, seed):
     for n in range(0, lf + 1):
         tasks += product_tasks("full", n, 1.0, seed, "exhaustive:full<=%d" % lf)
     info["exhaustive_spaces"].append("all strings of 0..%d symbols over the %d-symbol full alphabet (model column: all)" % (lf, len(FULL)))
-    r5q = 1.0 if thorough else 0.5
+    r5q = 0.5
     tasks += product_tasks("reduced", 5, r5q, seed, "exhaustive:reduced=5")
-    info["exhaustive_spaces"].append("all strings of 5 symbols over the %d-symbol reduced alphabet (model column: %s)" % (len(REDUCED), "all" if thorough else "seeded 50% sample"))
+    info["exhaustive_spaces"].append("all strings of 5 symbols over the %d-symbol reduced alphabet (model column: %s)" % (len(REDUCED), "seeded 50% sample"))
     if thorough:
-        r5, r6 = 0.02, 0.03
-        tasks += product_tasks("full", 5, r5, seed, "exhaustive:full=5")
-        info["exhaustive_spaces"].append("all strings of 5 symbols over the full alphabet (model column: seeded %.0f%% sample)" % (100 * r5))
+        r5, r6 = 0.03, 0.03
+        tasks += product_tasks("mid", 5, r5, seed, "exhaustive:mid=5")
+        info["exhaustive_spaces"].append("all strings of 5 symbols over the %d-symbol middle alphabet (model column: seeded %.0f%% sample)" % (len(MID), 100 * r5))
         tasks += product_tasks("reduced", 6, r6, seed, "exhaustive:reduced=6")
         info["exhaustive_spaces"].append("all strings of 6 symbols over the reduced alphabet (model column: seeded %.0f%% sample)" % (100 * r6))
     # --- generated documents and their mutations
@@ -593,6 +595,7 @@ def sanitizer_pass(ctx, workdir, cases, plain):
         outs = list(ex.map(one, paths))
     done = 0
     reports = 0
+    culprits = []
     for (rc, out), part in zip(outs, parts):
         lines = [l for l in out.split("\n") if " impl=" in l and not l.startswith(" ")]
         ok_lines = lines[:len(part)]
@@ -610,29 +613,34 @@ def sanitizer_pass(ctx, workdir, cases, plain):
             if culprit is None:
                 ctx.diff("sanitizer build of c14_impl ended abnormally after its last case", out[-600:])
                 continue
-            b = unhex(culprit)
-            ctx.violation("json::text sanitizer report on exact-size input '%s'" % show(b)[:80],
-                          "AddressSanitizer/UBSan stopped parse< seq< json::text, eof > > on the %d-byte input %s (new char[%d], no terminator): %s"
-                          % (len(b), culprit, len(b), rep),
-                          {"input_hex": culprit, "input_repr": show(b), "sanitizer": True, "report": rep, "output_tail": out[-1500:],
-                           "how": "build harness/c14_impl.cpp with %s against the tree; run  c14_impl -f <file containing the hex line>" % " ".join(SAN_FLAGS)})
+            culprits.append((len(unhex(culprit)), unhex(culprit), culprit, rep, out[-1500:]))
+    if culprits:
+        # every aborted chunk names its first failing input; report the smallest one
+        culprits.sort(key=lambda c: (c[0], c[1]))
+        n, b, culprit, rep, tail = culprits[0]
+        ctx.violation("json::text sanitizer report on exact-size input '%s'" % show(b)[:80],
+                      "AddressSanitizer/UBSan stopped parse< seq< json::text, eof > > on the %d-byte input %s (new char[%d], no terminator): %s (%d of %d chunks of the sanitizer pass were stopped)"
+                      % (n, culprit, n, rep, len(culprits), len(parts)),
+                      {"input_hex": culprit, "input_repr": show(b), "sanitizer": True, "report": rep, "output_tail": tail,
+                       "other_inputs": [c[2] for c in culprits[1:6]],
+                       "how": "build harness/c14_impl.cpp with %s against the tree; run  c14_impl -f <file containing the hex line>" % " ".join(SAN_FLAGS)})
     ctx.cover(sanitizer_inputs=done, sanitizer_reports=reports)
     return done
 
 
 # ----------------------------------------------------------------------------- violations
 def abstract(bs):
-    """byte-class abstraction used only to avoid reporting one cause several times"""
+    """coarse byte-class abstraction used only to avoid reporting one cause several times"""
     out = bytearray()
     for b in bs:
-        if b in b"123456789":
-            out.append(0x31)
+        if b in b"0123456789":
+            out.append(0x30)
+        elif b in b"eE":
+            out.append(0x65)
         elif b in b"abcdfABCDF":
             out.append(0x61)
         elif b in b" \t\n\r":
             out.append(0x20)
-        elif b in b"eE":
-            out.append(0x65)
         elif b < 0x20:
             out.append(0x1F)
         elif b >= 0x80:
@@ -640,6 +648,12 @@ def abstract(bs):
         else:
             out.append(b)
     return bytes(out)
+
+
+def subsequence(a, b):
+    """is a a (not necessarily contiguous) subsequence of b"""
+    it = iter(b)
+    return all(x in it for x in a)
 
 
 SIG = {"accepts": "json::text accepts non-RFC8259 input '%s'",
@@ -656,7 +670,7 @@ def report_violations(ctx, mism, mism_count, per_kind=3):
         kept = []
         for w in lst:
             a = abstract(unhex(w[1]))
-            if any(k in a for k, _ in kept):
+            if any(subsequence(k, a) for k, _ in kept):      # a smaller witness of (very likely) the same cause is already reported
                 continue
             kept.append((a, w))
             if len(kept) >= per_kind:
@@ -780,14 +794,14 @@ def run(ctx):
         # (d') thorough: sanitizer pass over everything except the long exhaustive families
         if ctx.tier == "thorough":
             san_cases = []
+            A = [x.hex() for x in FULL]
+            for n in range(0, 4):
+                san_cases += ["".join(x) or "-" for x in itertools.product(A, repeat=n)]
+            A = [x.hex() for x in REDUCED]
+            san_cases += ["".join(x) for x in itertools.product(A, repeat=4)]
             for t in tasks:
                 if t["type"] == "list" and t["family"] != "handwritten:long":
                     san_cases += t["hexes"]
-            for n in range(0, 4):
-                A = [s.hex() for s in FULL]
-                san_cases += ["".join(x) or "-" for x in itertools.product(A, repeat=n)]
-            A = [s.hex() for s in REDUCED]
-            san_cases += ["".join(x) for x in itertools.product(A, repeat=4)]
             # the plain verdicts for these come from a direct run (cheap)
             p = os.path.join(wd, "san-plain.cases")
             with open(p, "w") as fh:
@@ -833,11 +847,11 @@ def run(ctx):
                     % (info["n_docs"], info["docs_small"], len(MUT), info["docs_large"], fam.get("handwritten", {}).get("cases", 0))),
               samples=samples, exhaustive=True, exhaustive_spaces=info["exhaustive_spaces"], table_regenerated=table_ok,
               families=fam, by_length={k: hist[k] for k in order if hist[k]}, oracle_accepts=nacc, oracle_rejects=nrej,
-              duplicate_inputs_between_families=dup, distinct_inputs=total - dup,
+              duplicate_inputs_between_families=dup, inputs_minus_known_duplicates=total - dup,
               model_column_cases=sum(f["model_column"] for f in fam.values()), model_implementation_disagreements=ndiffs,
               verdict_combinations={k.strip(): c for k, c in sorted(keys.items())},
               generated_document_features=info["doc_features"], repo_test_data=test_files,
-              alphabet_full=[show(s) for s in FULL], alphabet_reduced=[show(s) for s in REDUCED],
+              alphabet_full=[show(s) for s in FULL], alphabet_reduced=[show(s) for s in REDUCED], alphabet_mid=[show(s) for s in MID],
               oracle_violations_by_kind=dict(mism_count), phase_seconds=phase)
     ctx.assumptions = [
         "the theorems are about Engine.run on gen/Json_gen.json_table; the tie to contrib/json.hpp is the table dumped by the compiler on every run plus the three-column correspondence on the explored inputs",
